@@ -1,8 +1,10 @@
 package main
 
 import (
+	"fmt"
 	"go/token"
 	"go/types"
+	"os"
 	"sort"
 	"strings"
 
@@ -698,12 +700,27 @@ func runC12(p *Program, r *Report) {
 	nf := p.Func(utilsPkg + ".NewChunkReader")
 	isf := p.Func(utilsPkg + ".IsStreamingPayload")
 	stream := constComparisons(isf)
+	// the dispatching comparisons: equality tests of the payload type whose holds edge leads to a reader
+	// constructor (validity pre-checks compare the same value against the same constants and lead nowhere)
+	ctors := callsTo(nf, utilsPkg+".NewUnsignedChunkReader", utilsPkg+".NewSignedChunkReader")
 	sw := map[string]condEdge{}
 	for _, ce := range condEdgesOf(nf) {
 		if ce.isEqNeq && ce.atoms["arg:X-Amz-Content-Sha256"] {
+			reach := reachableFromEdge(nf, ce.holds, []edge{ce.fails})
+			toCtor := false
+			// the constructor must not be reachable from the other edge as well (then the test does not dispatch)
+			other := reachableFromEdge(nf, ce.fails, nil)
+			for _, c := range ctors {
+				if reach[c.Block()] && !other[c.Block()] {
+					toCtor = true
+				}
+			}
 			for a := range ce.atoms {
 				if strings.HasPrefix(a, `const:"`) {
-					sw[strings.Trim(strings.TrimPrefix(a, "const:"), `"`)] = ce
+					k := strings.Trim(strings.TrimPrefix(a, "const:"), `"`)
+					if _, have := sw[k]; !have || toCtor {
+						sw[k] = ce
+					}
 				}
 			}
 		}
@@ -919,7 +936,7 @@ func c12InnerEOF(p *Program, r *Report, f *ssa.Function, innerField string) {
 		}
 		may := ""
 		for _, o := range terminalRoots(Origins(s.val, nil)) {
-			if o.Kind != "call" || !mayEOFCalls[o.Desc] {
+			if o.Kind != "call" || !mayEOFCalls[o.Desc] || !rootIsErrorResult(o) {
 				continue
 			}
 			// on the inner stream?
@@ -976,7 +993,7 @@ func rawEOFSummary(f *ssa.Function, memo map[*ssa.Function]int) bool {
 			continue
 		}
 		for _, o := range terminalRoots(Origins(s.val, nil)) {
-			if o.Kind != "call" || o.Call == nil {
+			if o.Kind != "call" || o.Call == nil || !rootIsErrorResult(o) {
 				continue
 			}
 			src := mayEOFCalls[o.Desc]
@@ -987,6 +1004,9 @@ func rawEOFSummary(f *ssa.Function, memo map[*ssa.Function]int) bool {
 			}
 			if src && siteReachable(f, s, notEOF) {
 				raw = true
+				if os.Getenv("VGW_DEBUG") != "" {
+					fmt.Fprintf(os.Stderr, "rawEOF: %s returns error of %s at %v val=%T %v roots=%v\n", fnName(f), o.Desc, f.Prog.Fset.Position(s.ret.Pos()), s.val, s.val, Origins(s.val, nil))
+				}
 			}
 		}
 	}
@@ -1025,7 +1045,7 @@ func c12RawEOFBoundary(p *Program, r *Report, f *ssa.Function) {
 				continue
 			}
 			for _, o := range terminalRoots(Origins(s.val, nil)) {
-				if o.Kind == "call" && o.Call == c {
+				if o.Kind == "call" && o.Call == c && rootIsErrorResult(o) {
 					short := fnName(cal)
 					k := fnName(f) + "/inner-eof-passed-by:" + short[strings.LastIndex(short, ".")+1:]
 					if seen[k] {
@@ -1059,4 +1079,17 @@ func controlsC12() []Control {
 		{Name: "revert fix c7a63d2: empty chunk signature accepted", Rule: "R-C12-5", File: "s3api/utils/signed-chunk-reader.go",
 			Old: "\tif sig == \"\" {\n\t\t// an empty signature would be taken for \"no chunk pending\n\t\t// verification\" and the chunk would never be verified\n\t\treturn 0, \"\", 0, errInvalidChunkFormat\n\t}\n", New: "", Expect: "empty-signature"},
 	}
+}
+
+// rootIsErrorResult: the root is the error result of its call (not one of the data results).
+func rootIsErrorResult(o Root) bool {
+	if o.Call == nil {
+		return false
+	}
+	res := o.Call.Common().Signature().Results()
+	if res.Len() == 0 {
+		return false
+	}
+	last := res.At(res.Len() - 1).Type()
+	return o.Idx == res.Len()-1 && types.Identical(last, types.Universe.Lookup("error").Type())
 }
